@@ -143,6 +143,10 @@ class C02(Prop):
         else:
             plan = [("stop", {}), ("set_position", {"position": i % 101}), ("get_shutter_state", {}),
                     ("set_position", None), ("stop", {})]
+        # the order of operations on one connection is random and some come round a second time: what one operation
+        # leaves behind on the object must not show in the next
+        r.shuffle(plan)
+        plan += [plan[k2] for k2 in (0, len(plan) // 2)]
         with clock.virtual_time(now):
             cl = await self.rig.connect(self.dev, t, dev_id, key)
             try:
